@@ -152,6 +152,8 @@ func (ex *Executor) zero(t types.Type) Val {
 		return smt.IntC(0)
 	case isNamed(t, "bytes", "Buffer"):
 		return &BufV{S: smt.StrC("")}
+	case isNamed(t, "reflect", "Value"):
+		return &RValue{}
 	}
 	switch u := t.Underlying().(type) {
 	case *types.Basic:
@@ -356,6 +358,19 @@ func (ex *Executor) valEq(a, b Val) *smt.Term {
 		}
 	case *LockV, *WaitGroupV, *SyncMapV, *OnceV:
 		return smt.True
+	case *RType:
+		y, ok := b.(*RType)
+		return smt.BoolC(ok && types.Identical(x.T, y.T))
+	case *RValue:
+		y, ok := b.(*RValue)
+		if !ok {
+			return smt.False
+		}
+		if !x.Valid || !y.Valid {
+			return smt.BoolC(x.Valid == y.Valid)
+		}
+		same := types.Identical(x.Typ, y.Typ) && x.Addr == y.Addr && (x.Addr.Obj != nil || sameVal(x.Val, y.Val))
+		return smt.BoolC(same)
 	}
 	if s, ok := a.(SliceV); ok && s.Arr == nil {
 		if y, ok := b.(BytesV); ok {
